@@ -279,7 +279,10 @@ type kmsModel struct {
 func newModel(sc *scenario) *kmsModel {
 	m := &kmsModel{ringExists: sc.RingExists, ringPlan: sc.RingPlan, keys: map[string]*mkey{}, vers: map[string]*mver{},
 		chains: map[string]*chain{}, newOC: sc.New, newPlan: sc.TargetPlan, faults: map[int]codes.Code{}}
-	vsz, ksz := pageSizes()
+	vsz, ksz := probeVer, probeKey
+	if !probing {
+		vsz, ksz = pageSizes()
+	}
 	nv, pages := 0, len(buildChain(len(sc.Keys), ksz, sc.RingPlan).pages)
 	for _, ks := range sc.Keys {
 		k := &mkey{name: keyName(ks.ID), inRing: true, plan: ks.Plan}
@@ -656,4 +659,1306 @@ func (m *kmsModel) logTail(n int) string {
 		b.WriteString("; ")
 	}
 	return b.String()
+}
+
+// ---------------------------------------------------------------------------------------------
+// Running one scenario against the code under test.
+
+type result struct {
+	name     string
+	err      error
+	panicked any
+	stack    string
+	m        *kmsModel
+}
+
+var (
+	probeOnce          sync.Once
+	probeVer, probeKey int
+	probing            bool
+)
+
+// pageSizes returns the page sizes the code requests for version and key listings (probed once on
+// a tiny ring), so that the emphasised counts sit around the real page size.
+func pageSizes() (versions, keysz int) {
+	probeOnce.Do(func() {
+		probeVer, probeKey = 100, 100 // provisional, used by newModel for the bound of the probe itself
+		probing = true
+		defer func() { probing = false }()
+		sc := &scenario{Op: "wipeout", RingExists: true, Keys: []keySpec{{ID: "probe", States: []int32{int32(kmspb.CryptoKeyVersion_DESTROYED)}}}}
+		res := runScenario(sc)
+		v, k := 0, 0
+		for _, c := range res.m.log {
+			if c.Method == "ListCryptoKeys" && k == 0 {
+				k = c.Size
+			}
+			if c.Method == "ListCryptoKeyVersions" && v == 0 {
+				v = c.Size
+			}
+		}
+		if v > 1 && v <= 1000 {
+			probeVer = v
+		}
+		if k > 1 && k <= 1000 {
+			probeKey = k
+		}
+		ev.Note("page sizes requested by the code: versions=%d keys=%d", probeVer, probeKey)
+	})
+	return probeVer, probeKey
+}
+
+func runScenario(sc *scenario) *result {
+	m := newModel(sc)
+	ctx0, cancel := context.WithCancel(context.Background())
+	defer cancel()
+	m.cancel = cancel
+	if sc.CancelBefore {
+		cancel()
+	}
+	ctx := output.NewContext(ctx0, &output.Options{Quiet: true, KeepGoing: sc.KeepGoing})
+	mgr := &gcpkms.Manager{Project: "p", Location: "l", KeyRingID: "r", KeyClient: m, IAMClient: &iamModel{m: m}}
+	res := &result{m: m}
+	func() {
+		defer func() {
+			if r := recover(); r != nil {
+				res.panicked = r
+				res.stack = string(debug.Stack())
+			}
+		}()
+		ops := []string{"serviceAccount:signer@example.com"}
+		switch sc.Op {
+		case "wipeout":
+			res.err = mgr.Wipeout(ctx)
+		case "bootstrap-root":
+			bctx := gcpkms.NewBootstrapContext(ctx, &gcpkms.BootstrapContext{RootKeyID: sc.Target, SigningKeyID: "other-signing", SigningKeyOperators: ops})
+			res.name, res.err = mgr.CreateNewRootKey(bctx)
+		case "bootstrap-signing":
+			bctx := gcpkms.NewBootstrapContext(ctx, &gcpkms.BootstrapContext{RootKeyID: "other-root", SigningKeyID: sc.Target, SigningKeyOperators: ops})
+			res.name, res.err = mgr.CreateFirstSigningKey(bctx)
+		case "rotate":
+			rctx := gcpkms.NewSigningKeyContext(ctx, &gcpkms.SigningKeyContext{SigningKeyID: sc.Target})
+			res.name, res.err = mgr.CreateNewSigningKeyVersion(rctx)
+		case "destroy":
+			res.err = mgr.DestroyKeyVersion(ctx, verName(keyName(sc.Target), sc.TargetVer))
+		default:
+			panic("harness: unknown op " + sc.Op)
+		}
+	}()
+	return res
+}
+
+// ---------------------------------------------------------------------------------------------
+// Oracles. Every judge returns true when the case passed (and may be recorded); false means a
+// violation with a known key was counted and the case must not be examined further.
+
+func describe(sc *scenario) string {
+	var b strings.Builder
+	fmt.Fprintf(&b, "op=%s target=%q keep_going=%v ring_exists=%v", sc.Op, sc.Target, sc.KeepGoing, sc.RingExists)
+	for _, k := range sc.Keys {
+		fmt.Fprintf(&b, " key %s: %d versions [%s] plan=%+v;", k.ID, len(k.States), stateSummary(k.States), k.Plan)
+	}
+	if len(sc.Keys) > 4 {
+		return fmt.Sprintf("op=%s target=%q keys=%d ring_plan=%+v (first: %d versions)", sc.Op, sc.Target, len(sc.Keys), sc.RingPlan, len(sc.Keys[0].States))
+	}
+	fmt.Fprintf(&b, " ring_plan=%+v new=%+v pending=%+v faults=%v cancel_before=%v", sc.RingPlan, sc.New, sc.Pending, sc.Faults, sc.CancelBefore)
+	return b.String()
+}
+
+func stateSummary(states []int32) string {
+	cnt := map[int32]int{}
+	for _, s := range states {
+		cnt[s]++
+	}
+	var ks []int
+	for s := range cnt {
+		ks = append(ks, int(s))
+	}
+	sort.Ints(ks)
+	var parts []string
+	for _, s := range ks {
+		parts = append(parts, fmt.Sprintf("%v x%d", vstate(s), cnt[int32(s)]))
+	}
+	return strings.Join(parts, ", ")
+}
+
+// judgeTermination: harness gaps, the call-count bound, panics.
+func judgeTermination(t ev.TB, sc *scenario, res *result) bool {
+	m := res.m
+	if _, isBound := res.panicked.(boundPanic); res.panicked != nil && !isBound {
+		if strings.Contains(res.stack, "<autogenerated>") && strings.Contains(res.stack, "kmsModel") {
+			t.Fatalf("HARNESS: the code called a client method the model does not implement: %v\n%s", res.panicked, res.stack)
+			return false
+		}
+		if strings.HasPrefix(fmt.Sprint(res.panicked), "harness:") {
+			t.Fatalf("HARNESS: %v", res.panicked)
+			return false
+		}
+		ev.Violation(t, "C20/panic", "%s: panic %v\n%s", describe(sc), res.panicked, res.stack)
+		return false
+	}
+	if m.exceeded || res.panicked != nil {
+		if parent, ok := m.loopCause(); ok {
+			ev.Violation(t, keyLoop, "%s: no termination within %d service calls; the listing of %q was completed by a full page with an empty next_page_token and the client then requested the first page again. calls: %s",
+				describe(sc), m.bound, parent, m.logTail(6))
+			return false
+		}
+		ev.Violation(t, "C20/call-bound-exceeded", "%s: no termination within %d service calls. calls: %s", describe(sc), m.bound, m.logTail(12))
+		return false
+	}
+	return true
+}
+
+// hiddenOr picks the root-cause key of a missed-version failure.
+func hiddenOr(m *kmsModel, otherwise string) (string, string) {
+	if parent, c, ok := m.abandonedShort(); ok {
+		return keyHidden, fmt.Sprintf(" [the listing of %q was abandoned after a page of %d < %d items although it carried next_page_token %q]", parent, c.N, c.Size, c.Next)
+	}
+	return otherwise, ""
+}
+
+// judgeFaults: an injected service error (or a context cancelled beforehand) must come back as an
+// error. CreateKeyRing faults are not judged (the statement makes no claim about the key ring).
+// reached reports whether any fault/cancellation took effect, in which case the success
+// expectations of the operation do not apply.
+func judgeFaults(t ev.TB, sc *scenario, res *result) (ok bool, reached bool) {
+	m := res.m
+	judged := ""
+	for _, li := range m.injected {
+		reached = true
+		if m.log[li].Method != "CreateKeyRing" && judged == "" {
+			judged = fmt.Sprintf("%s at call %d (%s)", m.log[li].Method, li, m.log[li].Err)
+		}
+	}
+	if judged != "" && res.err == nil {
+		ev.Violation(t, "C20/service-error-swallowed", "%s: the service answered %s with an error but the operation reported success (%q). calls: %s", describe(sc), judged, res.name, m.logTail(8))
+		return false, true
+	}
+	if sc.CancelBefore {
+		reached = true
+		if res.err == nil {
+			ev.Violation(t, "C20/cancelled-context-ignored", "%s: context cancelled before the operation, yet it reported success", describe(sc))
+			return false, true
+		}
+	}
+	return true, reached
+}
+
+// judgeReturned: whatever happened, a version name returned without error must be an ENABLED
+// version of the target key.
+func judgeReturned(t ev.TB, sc *scenario, res *result) bool {
+	if res.err != nil || sc.Op == "wipeout" || sc.Op == "destroy" {
+		return true
+	}
+	m := res.m
+	v := m.vers[res.name]
+	if v == nil || v.key.name != keyName(sc.Target) || v.state != stEnabled {
+		st := "unknown to the service"
+		if v != nil {
+			st = v.state.String()
+		}
+		key, why := hiddenOr(m, "C20/returned-version-not-enabled")
+		ev.Violation(t, key, "%s: returned %q which is %s%s. calls: %s", describe(sc), res.name, st, why, m.logTail(8))
+		return false
+	}
+	return true
+}
+
+func judgeWipeout(t ev.TB, sc *scenario, res *result) bool {
+	m := res.m
+	if !judgeTermination(t, sc, res) {
+		return false
+	}
+	ok, reached := judgeFaults(t, sc, res)
+	if !ok {
+		return false
+	}
+	// never destroy what is not destroyable, never twice, never outside the ring
+	names := make([]string, 0, len(m.vers))
+	for n := range m.vers {
+		names = append(names, n)
+	}
+	sort.Strings(names)
+	for _, n := range names {
+		v := m.vers[n]
+		want := 0
+		if v.key.inRing && live(v.initial) {
+			want = 1
+		}
+		if v.destroys > want {
+			ev.Violation(t, "C20/wipeout-destroy-set", "%s: version %q (initially %v, in ring: %v) received %d destroy calls, want at most %d", describe(sc), n, v.initial, v.key.inRing, v.destroys, want)
+			return false
+		}
+	}
+	if reached {
+		return true
+	}
+	for _, n := range names {
+		v := m.vers[n]
+		if v.key.inRing && live(v.state) {
+			key, why := hiddenOr(m, "C20/wipeout-left-live-version")
+			ev.Violation(t, key, "%s: after Wipeout returned (%v) version %q is still %v%s. calls: %s", describe(sc), res.err, n, v.state, why, m.logTail(8))
+			return false
+		}
+		if v.key.inRing && live(v.initial) && v.destroys != 1 {
+			ev.Violation(t, "C20/wipeout-destroy-set", "%s: destroyable version %q received %d destroy calls, want 1", describe(sc), n, v.destroys)
+			return false
+		}
+	}
+	if res.err != nil {
+		ev.Note("wipeout returned an error although no fault was injected and every destroyable version was destroyed: %v", res.err)
+	}
+	return true
+}
+
+// judgeBootstrap returns (passed, class of the expectation that applied).
+func judgeBootstrap(t ev.TB, sc *scenario, res *result) (bool, string) {
+	m := res.m
+	if !judgeTermination(t, sc, res) {
+		return false, ""
+	}
+	ok, reached := judgeFaults(t, sc, res)
+	if !ok || !judgeReturned(t, sc, res) {
+		return false, ""
+	}
+	if reached {
+		return true, "fault"
+	}
+	tk := m.keys[keyName(sc.Target)]
+	preexisting := tk != nil && !tk.created
+	if sc.Op == "bootstrap-root" && sc.RingExists && !sc.KeepGoing {
+		return true, "ring-exists-no-keep-going" // AlreadyExists is the documented outcome; nothing more is demanded
+	}
+	if preexisting && !sc.KeepGoing {
+		return true, "key-exists-no-keep-going"
+	}
+	if tk == nil {
+		if res.err == nil {
+			ev.Violation(t, "C20/returned-version-not-enabled", "%s: success without a key", describe(sc))
+			return false, ""
+		}
+		return true, "no-key-ring"
+	}
+	// S = the versions the key had when it was listed
+	var enabled, pending []string
+	total := 0
+	for _, v := range tk.vers {
+		if v.created && !tk.created {
+			continue // created by CreateCryptoKeyVersion during the operation
+		}
+		if v.created && tk.created && v != tk.vers[0] {
+			continue
+		}
+		total++
+		switch v.initial {
+		case stEnabled:
+			enabled = append(enabled, v.name)
+		case stPending:
+			pending = append(pending, v.name)
+		}
+	}
+	creates := m.count("CreateCryptoKeyVersion", false)
+	polled := map[string]bool{}
+	lastPolled := ""
+	for _, c := range m.log {
+		if c.Method == "GetCryptoKeyVersion" {
+			polled[c.Target] = true
+			lastPolled = c.Target
+		}
+	}
+	in := func(set []string, n string) bool {
+		for _, s := range set {
+			if s == n {
+				return true
+			}
+		}
+		return false
+	}
+	tail := m.logTail(8)
+	switch {
+	case total == 0:
+		return true, "zero-versions" // not judged beyond termination and judgeReturned (see assumptions)
+	case len(enabled) > 0:
+		if res.err != nil || !in(enabled, res.name) || creates != 0 {
+			key, why := hiddenOr(m, "C20/bootstrap-enabled-not-selected")
+			ev.Violation(t, key, "%s: the key has ENABLED version(s) %v but bootstrap returned (%q, %v) after %d CreateCryptoKeyVersion calls%s. calls: %s", describe(sc), clip(enabled), res.name, res.err, creates, why, tail)
+			return false, ""
+		}
+		return true, "enabled-exists"
+	case len(pending) > 0:
+		bad := creates != 0 || len(polled) == 0
+		for p := range polled {
+			if !in(pending, p) {
+				bad = true
+			}
+		}
+		if bad {
+			key, why := hiddenOr(m, "C20/bootstrap-pending-not-awaited")
+			ev.Violation(t, key, "%s: no ENABLED version, PENDING_GENERATION version(s) %v exist, but bootstrap polled %v and made %d CreateCryptoKeyVersion calls, returning (%q, %v)%s. calls: %s", describe(sc), clip(pending), keysOf(polled), creates, res.name, res.err, why, tail)
+			return false, ""
+		}
+		pv := m.vers[lastPolled]
+		if pv.state == stEnabled && (res.err != nil || res.name != pv.name) {
+			ev.Violation(t, "C20/bootstrap-enabled-after-wait-rejected", "%s: awaited version %q became ENABLED but bootstrap returned (%q, %v)", describe(sc), pv.name, res.name, res.err)
+			return false, ""
+		}
+		if pv.state != stEnabled && res.err == nil {
+			ev.Violation(t, "C20/returned-version-not-enabled", "%s: awaited version %q ended %v but bootstrap returned (%q, nil)", describe(sc), pv.name, pv.state, res.name)
+			return false, ""
+		}
+		return true, "pending-awaited/" + resolveClass(pv)
+	default:
+		if creates != 1 {
+			key, why := hiddenOr(m, "C20/bootstrap-create-count")
+			ev.Violation(t, key, "%s: no ENABLED or PENDING_GENERATION version among %d: want exactly one CreateCryptoKeyVersion, saw %d; returned (%q, %v)%s. calls: %s", describe(sc), total, creates, res.name, res.err, why, tail)
+			return false, ""
+		}
+		nv := tk.vers[len(tk.vers)-1]
+		if nv.state == stEnabled && (res.err != nil || res.name != nv.name) {
+			ev.Violation(t, "C20/bootstrap-enabled-after-wait-rejected", "%s: created version %q is ENABLED but bootstrap returned (%q, %v)", describe(sc), nv.name, res.name, res.err)
+			return false, ""
+		}
+		if nv.state != stEnabled && res.err == nil {
+			ev.Violation(t, "C20/returned-version-not-enabled", "%s: created version %q ended %v but bootstrap returned (%q, nil)", describe(sc), nv.name, nv.state, res.name)
+			return false, ""
+		}
+		return true, "created/" + resolveClass(nv)
+	}
+}
+
+func resolveClass(v *mver) string {
+	switch {
+	case v.initial == stEnabled:
+		return "enabled-at-once"
+	case v.state == stEnabled:
+		return fmt.Sprintf("enabled-after-%d-polls", v.polls)
+	case v.state == stPending:
+		return "never-resolves-context-ends"
+	default:
+		return "resolves-" + v.state.String()
+	}
+}
+
+func clip(s []string) []string {
+	if len(s) > 3 {
+		return append(append([]string{}, s[:3]...), fmt.Sprintf("… %d more", len(s)-3))
+	}
+	return s
+}
+
+func keysOf(m map[string]bool) []string {
+	var out []string
+	for k := range m {
+		out = append(out, k)
+	}
+	sort.Strings(out)
+	return out
+}
+
+func judgeRotate(t ev.TB, sc *scenario, res *result) (bool, string) {
+	m := res.m
+	if !judgeTermination(t, sc, res) {
+		return false, ""
+	}
+	ok, reached := judgeFaults(t, sc, res)
+	if !ok || !judgeReturned(t, sc, res) {
+		return false, ""
+	}
+	if reached {
+		return true, "fault"
+	}
+	tk := m.keys[keyName(sc.Target)]
+	if tk == nil {
+		if res.err == nil {
+			ev.Violation(t, "C20/returned-version-not-enabled", "%s: rotation of a missing key reported success %q", describe(sc), res.name)
+			return false, ""
+		}
+		return true, "missing-key"
+	}
+	if c := m.count("CreateCryptoKeyVersion", false); c != 1 {
+		ev.Violation(t, "C20/rotation-create-count", "%s: rotation made %d CreateCryptoKeyVersion calls, want 1", describe(sc), c)
+		return false, ""
+	}
+	nv := tk.vers[len(tk.vers)-1]
+	if nv.state == stEnabled && (res.err != nil || res.name != nv.name) {
+		ev.Violation(t, "C20/rotation-enabled-version-rejected", "%s: new version %q is ENABLED but rotation returned (%q, %v)", describe(sc), nv.name, res.name, res.err)
+		return false, ""
+	}
+	if nv.state != stEnabled && res.err == nil {
+		ev.Violation(t, "C20/returned-version-not-enabled", "%s: new version %q ended %v but rotation returned (%q, nil)", describe(sc), nv.name, nv.state, res.name)
+		return false, ""
+	}
+	return true, resolveClass(nv)
+}
+
+func judgeDestroy(t ev.TB, sc *scenario, res *result) (bool, string) {
+	m := res.m
+	if !judgeTermination(t, sc, res) {
+		return false, ""
+	}
+	ok, reached := judgeFaults(t, sc, res)
+	if !ok {
+		return false, ""
+	}
+	if reached {
+		return true, "fault"
+	}
+	v := m.vers[verName(keyName(sc.Target), sc.TargetVer)]
+	switch {
+	case v == nil || !live(v.initial):
+		if res.err == nil {
+			ev.Violation(t, "C20/service-error-swallowed", "%s: DestroyKeyVersion of a missing / non-destroyable version reported success", describe(sc))
+			return false, ""
+		}
+		return true, "refused-by-service"
+	default:
+		if res.err != nil || v.destroys != 1 || live(v.state) {
+			ev.Violation(t, "C20/destroy-version", "%s: DestroyKeyVersion returned %v, destroy calls %d, state %v", describe(sc), res.err, v.destroys, v.state)
+			return false, ""
+		}
+		return true, "destroyed"
+	}
+}
+
+func judge(t ev.TB, sc *scenario, res *result) (bool, string) {
+	switch sc.Op {
+	case "wipeout":
+		return judgeWipeout(t, sc, res), "wipeout"
+	case "bootstrap-root", "bootstrap-signing":
+		return judgeBootstrap(t, sc, res)
+	case "rotate":
+		return judgeRotate(t, sc, res)
+	default:
+		return judgeDestroy(t, sc, res)
+	}
+}
+
+// ---------------------------------------------------------------------------------------------
+// Generators (everything is drawn before the operation runs).
+
+func genPlan(t *rapid.T, label string) listPlan {
+	var p listPlan
+	switch rapid.SampledFrom([]string{"all-full", "all-full", "all-full", "mixed", "mixed", "one-short", "one-empty"}).Draw(t, label+".paging") {
+	case "mixed":
+		n := rapid.IntRange(1, 6).Draw(t, label+".ndirs")
+		for i := 0; i < n; i++ {
+			d := pageDir{Kind: rapid.SampledFrom([]string{"full", "full", "short", "empty"}).Draw(t, label+".dir")}
+			if d.Kind == "short" {
+				d.N = rapid.IntRange(0, 997).Draw(t, label+".shortlen")
+			}
+			p.Dirs = append(p.Dirs, d)
+		}
+	case "one-short":
+		for k := rapid.IntRange(0, 2).Draw(t, label+".fullsBefore"); k > 0; k-- {
+			p.Dirs = append(p.Dirs, pageDir{Kind: "full"})
+		}
+		p.Dirs = append(p.Dirs, pageDir{Kind: "short", N: rapid.IntRange(0, 997).Draw(t, label+".shortlen")})
+	case "one-empty":
+		for k := rapid.IntRange(0, 2).Draw(t, label+".fullsBefore"); k > 0; k-- {
+			p.Dirs = append(p.Dirs, pageDir{Kind: "full"})
+		}
+		p.Dirs = append(p.Dirs, pageDir{Kind: "empty"})
+	}
+	p.Trailing = rapid.IntRange(0, 3).Draw(t, label+".trailingEmpty") == 0
+	return p
+}
+
+// genCount draws a count with emphasis on the boundaries of the page size p.
+func genCount(t *rapid.T, p int, label string) int {
+	if rapid.IntRange(0, 3).Draw(t, label+".emphasised") != 0 {
+		return rapid.SampledFrom([]int{0, 1, p - 1, p, p, p + 1, 2*p - 1, 2 * p, 2 * p, 2*p + 1}).Draw(t, label+".count")
+	}
+	return rapid.IntRange(0, 3*p+2).Draw(t, label+".count")
+}
+
+func smallCount(t *rapid.T, p int, label string) int {
+	if rapid.IntRange(0, 11).Draw(t, label+".big") == 0 {
+		return p + 1
+	}
+	return rapid.SampledFrom([]int{0, 1, 1, 2, 3, 5}).Draw(t, label+".count")
+}
+
+func countClass(n, p int) string {
+	switch {
+	case n == 0:
+		return "0"
+	case n == 1:
+		return "1"
+	case n < p-1:
+		return "2..p-2"
+	case n == p-1:
+		return "p-1"
+	case n == p:
+		return "p"
+	case n == p+1:
+		return "p+1"
+	case n < 2*p-1:
+		return "p+2..2p-2"
+	case n == 2*p-1:
+		return "2p-1"
+	case n == 2*p:
+		return "2p"
+	case n == 2*p+1:
+		return "2p+1"
+	case n%p == 0:
+		return "kp(k>2)"
+	}
+	return ">2p+1"
+}
+
+var deadStates = []int32{int32(kmspb.CryptoKeyVersion_DESTROYED), int32(kmspb.CryptoKeyVersion_DESTROY_SCHEDULED), int32(kmspb.CryptoKeyVersion_DISABLED),
+	int32(kmspb.CryptoKeyVersion_GENERATION_FAILED), int32(kmspb.CryptoKeyVersion_IMPORT_FAILED), int32(kmspb.CryptoKeyVersion_PENDING_IMPORT),
+	int32(kmspb.CryptoKeyVersion_PENDING_EXTERNAL_DESTRUCTION), int32(kmspb.CryptoKeyVersion_EXTERNAL_DESTRUCTION_FAILED)}
+
+// genStates: a base state plus a few overrides at positions around the page boundaries.
+func genStates(t *rapid.T, n, p int, bases, overrides []int32, label string) []int32 {
+	if n == 0 {
+		return []int32{}
+	}
+	base := rapid.SampledFrom(bases).Draw(t, label+".base")
+	out := make([]int32, n)
+	for i := range out {
+		out[i] = base
+	}
+	k := rapid.IntRange(0, 3).Draw(t, label+".noverrides")
+	for i := 0; i < k; i++ {
+		pos := rapid.SampledFrom([]int{0, n - 1, n - 1, p - 1, p, 2*p - 1, 2 * p, -1}).Draw(t, label+".pos")
+		if pos < 0 || pos >= n {
+			pos = rapid.IntRange(0, n-1).Draw(t, label+".anypos")
+		}
+		out[pos] = rapid.SampledFrom(overrides).Draw(t, label+".state")
+	}
+	return out
+}
+
+var wipeBases = append(append([]int32{}, tenStates...), int32(kmspb.CryptoKeyVersion_ENABLED), int32(kmspb.CryptoKeyVersion_DISABLED), int32(kmspb.CryptoKeyVersion_ENABLED))
+
+// genOutcome never asks for a real wait: a pending version resolves at the first poll, or never
+// (then the model ends the caller's context while answering the poll).
+func genOutcome(t *rapid.T, label string) outcome {
+	o := outcome{Initial: rapid.SampledFrom([]int32{int32(stEnabled), int32(stPending), int32(stPending)}).Draw(t, label+".initial")}
+	if rapid.IntRange(0, 1).Draw(t, label+".resolvesEnabled") == 0 {
+		o.Resolve = int32(stEnabled)
+	} else {
+		o.Resolve = rapid.SampledFrom(append([]int32{int32(stPending), int32(stPending)}, tenStates[1:]...)).Draw(t, label+".resolve")
+	}
+	return o
+}
+
+func genWipeout(t *rapid.T, small bool) *scenario {
+	vsz, ksz := pageSizes()
+	sc := &scenario{Op: "wipeout", RingExists: true, Decoy: rapid.Bool().Draw(t, "decoy")}
+	nk := rapid.SampledFrom([]int{0, 1, 1, 1, 1, 2, 2, 3}).Draw(t, "nkeys")
+	bigRing := false
+	if !small && rapid.IntRange(0, 9).Draw(t, "bigRing") == 0 {
+		bigRing = true
+		nk = rapid.SampledFrom([]int{ksz - 1, ksz, ksz, ksz + 1, 2 * ksz, 2*ksz + 1}).Draw(t, "nkeysBig")
+	}
+	sc.RingPlan = genPlan(t, "ring")
+	for i := 0; i < nk; i++ {
+		ks := keySpec{ID: fmt.Sprintf("k%03d", i)}
+		label := fmt.Sprintf("key%d", i)
+		var n int
+		switch {
+		case bigRing:
+			label = "bigkey"
+			n = rapid.IntRange(0, 2).Draw(t, label+".count")
+		case small:
+			n = smallCount(t, vsz, label)
+		default:
+			n = genCount(t, vsz, label)
+		}
+		ks.States = genStates(t, n, vsz, wipeBases, tenStates, label)
+		if !bigRing {
+			ks.Plan = genPlan(t, label)
+		}
+		sc.Keys = append(sc.Keys, ks)
+	}
+	return sc
+}
+
+func genBootstrap(t *rapid.T, small bool) *scenario {
+	vsz, _ := pageSizes()
+	sc := &scenario{Op: rapid.SampledFrom([]string{"bootstrap-root", "bootstrap-signing"}).Draw(t, "op"), Target: "tk"}
+	sc.New = genOutcome(t, "new")
+	sc.Pending = genOutcome(t, "pending")
+	sc.TargetPlan = genPlan(t, "freshkey")
+	if rapid.IntRange(0, 5).Draw(t, "freshKey") == 0 {
+		sc.KeepGoing = rapid.Bool().Draw(t, "keepGoing")
+		if sc.Op == "bootstrap-root" {
+			sc.RingExists = rapid.Bool().Draw(t, "ringExists")
+		} else {
+			sc.RingExists = rapid.IntRange(0, 7).Draw(t, "ringExists") != 0
+		}
+	} else {
+		sc.RingExists = true
+		sc.KeepGoing = rapid.IntRange(0, 11).Draw(t, "keepGoing") != 0
+		n := 0
+		if small {
+			n = smallCount(t, vsz, "target")
+		} else {
+			n = genCount(t, vsz, "target")
+		}
+		bases := deadStates
+		if rapid.IntRange(0, 5).Draw(t, "anyBase") == 0 {
+			bases = tenStates
+		}
+		ov := []int32{int32(stEnabled), int32(stEnabled), int32(stPending), int32(stPending), int32(kmspb.CryptoKeyVersion_DISABLED), int32(kmspb.CryptoKeyVersion_DESTROYED)}
+		sc.Keys = append(sc.Keys, keySpec{ID: "tk", States: genStates(t, n, vsz, bases, ov, "target"), Plan: genPlan(t, "target")})
+	}
+	if sc.RingExists && rapid.IntRange(0, 2).Draw(t, "otherKey") == 0 {
+		// a neighbour with an ENABLED version that must not be mistaken for the target's
+		sc.Keys = append(sc.Keys, keySpec{ID: "neighbour", States: []int32{int32(stEnabled), int32(stPending)}})
+	}
+	return sc
+}
+
+func genRotate(t *rapid.T) *scenario {
+	vsz, _ := pageSizes()
+	sc := &scenario{Op: "rotate", Target: "sk", RingExists: true, New: genOutcome(t, "new"), Pending: genOutcome(t, "pending")}
+	if rapid.IntRange(0, 9).Draw(t, "keyExists") != 0 {
+		n := rapid.SampledFrom([]int{0, 1, 1, 2, 5, vsz}).Draw(t, "count")
+		sc.Keys = append(sc.Keys, keySpec{ID: "sk", States: genStates(t, n, vsz, tenStates, tenStates, "sk")})
+	}
+	if rapid.IntRange(0, 2).Draw(t, "otherKey") == 0 {
+		sc.Keys = append(sc.Keys, keySpec{ID: "neighbour", States: []int32{int32(stEnabled)}})
+	}
+	return sc
+}
+
+func genDestroy(t *rapid.T) *scenario {
+	vsz, _ := pageSizes()
+	n := rapid.IntRange(0, 3).Draw(t, "count")
+	sc := &scenario{Op: "destroy", Target: "dk", RingExists: true, TargetVer: rapid.IntRange(1, n+1).Draw(t, "version")}
+	sc.Keys = append(sc.Keys, keySpec{ID: "dk", States: genStates(t, n, vsz, wipeBases, tenStates, "dk")})
+	return sc
+}
+
+// ---------------------------------------------------------------------------------------------
+// Evidence.
+
+func scenarioCanon(sc *scenario) string {
+	vsz, ksz := pageSizes()
+	var b strings.Builder
+	fmt.Fprintf(&b, "%s|kg=%v|ring=%v|nk=%s|%s|new=%v|pend=%v|cb=%v|f=%v", sc.Op, sc.KeepGoing, sc.RingExists, countClass(len(sc.Keys), ksz),
+		chainClass(buildChain(len(sc.Keys), ksz, sc.RingPlan)), sc.New, sc.Pending, sc.CancelBefore, sc.Faults)
+	for i, k := range sc.Keys {
+		if i >= 4 {
+			break
+		}
+		fmt.Fprintf(&b, "|%s:%s:%s:%s", k.ID, countClass(len(k.States), vsz), stateSummary(k.States), chainClass(buildChain(len(k.States), vsz, k.Plan)))
+	}
+	return b.String()
+}
+
+// recordLifecycle records one evaluated lifecycle case: class = version-count class of the largest
+// listed key / paging behaviours met by the client; extra counters for marginals.
+func recordLifecycle(name string, sc *scenario, res *result, expCls string) {
+	m := res.m
+	vsz, ksz := pageSizes()
+	pagingSet := map[string]bool{}
+	maxListed := -1
+	nontrivial := false
+	for parent, ch := range m.chains {
+		cc := chainClass(ch)
+		pagingSet[cc] = true
+		if cc != "single-short-page" {
+			nontrivial = true
+		}
+		if parent != ringName && ch.total > maxListed {
+			maxListed = ch.total
+		}
+	}
+	paging := strings.Join(keysOf(pagingSet), ",")
+	if paging == "" {
+		paging = "no-listing"
+	}
+	for cc := range pagingSet {
+		ev.Class(name, "paging:"+cc)
+	}
+	cnt := "none-listed"
+	if maxListed >= 0 {
+		cnt = countClass(maxListed, vsz)
+	}
+	ev.Class(name, "versions:"+cnt)
+	if sc.Op == "wipeout" {
+		ev.Class(name, "keys-in-ring:"+countClass(len(sc.Keys), ksz))
+	}
+	if expCls != "" && expCls != "wipeout" {
+		ev.Class(name, "expect:"+expCls)
+		if !strings.HasSuffix(expCls, "enabled-at-once") && expCls != "enabled-exists" {
+			nontrivial = nontrivial || sc.Op == "rotate"
+		}
+	}
+	outcomeCls := "ok"
+	if res.err != nil {
+		outcomeCls = "error"
+	}
+	ev.Class(name, "returned:"+outcomeCls)
+	ev.Case(name, nontrivial, scenarioCanon(sc)+"|"+expCls, "vers="+cnt+"/"+paging, func() any {
+		return map[string]any{"scenario": describe(sc), "calls": m.calls, "bound": m.bound, "returned": res.name, "error": fmt.Sprint(res.err), "expectation": expCls}
+	})
+}
+
+// ---------------------------------------------------------------------------------------------
+// Regression tests for the confirmed findings (plain cases, no generators) and legal-paging controls.
+
+func repeatState(s vstate, n int) []int32 {
+	out := make([]int32, n)
+	for i := range out {
+		out[i] = int32(s)
+	}
+	return out
+}
+
+func regress(t *testing.T, label string, sc *scenario) {
+	t.Helper()
+	ev.Rule("regression", "hand-written minimal scenarios replaying the confirmed findings (a listing whose last page is full: exactly page-size versions / keys; a short or empty page that carries a token) plus legal-paging controls; same runner and oracles as the generated cases; all non-trivial")
+	pageSizes()
+	res := runScenario(sc)
+	if ok, cls := judge(t, sc, res); ok {
+		ev.Case("regression", true, label, label, func() any { return map[string]any{"case": label, "calls": res.m.calls, "expectation": cls} })
+	}
+}
+
+func TestRegressionWipeoutOneFullPageOfVersions(t *testing.T) {
+	vsz, _ := pageSizes()
+	regress(t, "wipeout/versions==page-size", &scenario{Op: "wipeout", RingExists: true,
+		Keys: []keySpec{{ID: "k", States: repeatState(stEnabled, vsz)}}})
+}
+
+func TestRegressionWipeoutOneFullPageOfKeys(t *testing.T) {
+	_, ksz := pageSizes()
+	sc := &scenario{Op: "wipeout", RingExists: true}
+	for i := 0; i < ksz; i++ {
+		sc.Keys = append(sc.Keys, keySpec{ID: fmt.Sprintf("k%03d", i), States: []int32{}})
+	}
+	sc.Keys[ksz-1].States = []int32{int32(stEnabled)}
+	regress(t, "wipeout/keys==page-size", sc)
+}
+
+func TestRegressionBootstrapOneFullPageNoUsableVersion(t *testing.T) {
+	vsz, _ := pageSizes()
+	regress(t, "bootstrap/versions==page-size,none-usable", &scenario{Op: "bootstrap-root", RingExists: true, KeepGoing: true, Target: "tk",
+		New: outcome{Initial: int32(stEnabled), Resolve: int32(stEnabled)}, Pending: outcome{Resolve: int32(stEnabled)},
+		Keys: []keySpec{{ID: "tk", States: repeatState(kmspb.CryptoKeyVersion_DESTROYED, vsz)}}})
+}
+
+func TestRegressionBootstrapOneFullPagePendingVersion(t *testing.T) {
+	vsz, _ := pageSizes()
+	states := repeatState(kmspb.CryptoKeyVersion_DESTROY_SCHEDULED, vsz)
+	states[0] = int32(stPending)
+	regress(t, "bootstrap/versions==page-size,one-pending", &scenario{Op: "bootstrap-signing", RingExists: true, KeepGoing: true, Target: "tk",
+		New: outcome{Initial: int32(stEnabled), Resolve: int32(stEnabled)}, Pending: outcome{Resolve: int32(stEnabled)},
+		Keys: []keySpec{{ID: "tk", States: states}}})
+}
+
+func TestRegressionWipeoutShortNonFinalPage(t *testing.T) {
+	regress(t, "wipeout/short-page-with-token", &scenario{Op: "wipeout", RingExists: true,
+		Keys: []keySpec{{ID: "k", States: repeatState(stEnabled, 2), Plan: listPlan{Dirs: []pageDir{{Kind: "short"}}}}}})
+}
+
+func TestRegressionWipeoutEmptyPageWithToken(t *testing.T) {
+	regress(t, "wipeout/empty-page-with-token", &scenario{Op: "wipeout", RingExists: true,
+		Keys: []keySpec{{ID: "k", States: []int32{int32(kmspb.CryptoKeyVersion_DISABLED)}, Plan: listPlan{Dirs: []pageDir{{Kind: "empty"}}}}}})
+}
+
+func TestRegressionWipeoutKeysBehindShortPage(t *testing.T) {
+	regress(t, "wipeout/short-page-of-keys-with-token", &scenario{Op: "wipeout", RingExists: true, RingPlan: listPlan{Dirs: []pageDir{{Kind: "short"}}},
+		Keys: []keySpec{{ID: "k0", States: []int32{int32(stEnabled)}}, {ID: "k1", States: []int32{int32(stEnabled)}}}})
+}
+
+func TestRegressionBootstrapEnabledBehindShortPage(t *testing.T) {
+	regress(t, "bootstrap/enabled-behind-short-page", &scenario{Op: "bootstrap-root", RingExists: true, KeepGoing: true, Target: "tk",
+		New: outcome{Initial: int32(stEnabled), Resolve: int32(stEnabled)}, Pending: outcome{Resolve: int32(stEnabled)},
+		Keys: []keySpec{{ID: "tk", States: []int32{int32(kmspb.CryptoKeyVersion_DESTROYED), int32(stEnabled)}, Plan: listPlan{Dirs: []pageDir{{Kind: "short"}}}}}})
+}
+
+func TestRegressionBootstrapEmptyFirstPage(t *testing.T) {
+	regress(t, "bootstrap/enabled-behind-empty-page", &scenario{Op: "bootstrap-signing", RingExists: true, KeepGoing: true, Target: "tk",
+		New: outcome{Initial: int32(stEnabled), Resolve: int32(stEnabled)}, Pending: outcome{Resolve: int32(stEnabled)},
+		Keys: []keySpec{{ID: "tk", States: []int32{int32(stEnabled)}, Plan: listPlan{Dirs: []pageDir{{Kind: "empty"}}}}}})
+}
+
+// Controls: paging that the unrepaired loops happen to survive must pass.
+func TestControlLegalPagingHandled(t *testing.T) {
+	vsz, _ := pageSizes()
+	regress(t, "control/page-size+1-versions", &scenario{Op: "wipeout", RingExists: true, Decoy: true,
+		Keys: []keySpec{{ID: "k", States: repeatState(stEnabled, vsz+1)}}})
+	regress(t, "control/full-last-page-then-trailing-empty-page", &scenario{Op: "wipeout", RingExists: true,
+		Keys: []keySpec{{ID: "k", States: repeatState(kmspb.CryptoKeyVersion_DISABLED, vsz), Plan: listPlan{Trailing: true}}}})
+	regress(t, "control/bootstrap-enabled-on-second-page", &scenario{Op: "bootstrap-root", RingExists: true, KeepGoing: true, Target: "tk",
+		New: outcome{Initial: int32(stEnabled), Resolve: int32(stEnabled)}, Pending: outcome{Resolve: int32(stEnabled)},
+		Keys: []keySpec{{ID: "tk", States: append(repeatState(kmspb.CryptoKeyVersion_DESTROYED, vsz), int32(stEnabled))}}})
+	regress(t, "control/bootstrap-fresh-key-pending-then-enabled", &scenario{Op: "bootstrap-signing", RingExists: true, Target: "tk",
+		New: outcome{Initial: int32(stPending), Resolve: int32(stEnabled)}})
+	regress(t, "control/rotation-generation-failed", &scenario{Op: "rotate", RingExists: true, Target: "sk",
+		New:  outcome{Initial: int32(stPending), Resolve: int32(kmspb.CryptoKeyVersion_GENERATION_FAILED)},
+		Keys: []keySpec{{ID: "sk", States: []int32{int32(stEnabled)}}}})
+}
+
+// ---------------------------------------------------------------------------------------------
+// Lifecycle properties.
+
+const lifecycleRuleTail = " Paging of every listing is drawn per page among the legal behaviours of a List method (AIP-158: page_size is an upper limit, the only end-of-list signal is an empty next_page_token): full page with token, final full page with empty token, short non-final page with token, empty page with token (at most 2 in a row), trailing empty last page; total_size always correct. Oracle from the model's call log and final state; termination = call-count bound calls <= 4*(versions+keys+pages)+16 enforced by the model (no timer). Non-trivial = some listing had >= page-size items or a non-trivial paging behaviour (for rotation: the new version is not ENABLED at once). Distinct = (op, count classes, state multiset, paging behaviours per listing, outcomes)."
+
+func TestWipeout(t *testing.T) {
+	const name = "lifecycle/wipeout"
+	ev.Rule(name, "key ring with 0..3 keys (1 in 10: p-1..2p+1 keys of 0..2 versions to page the key listing), versions per key emphasising {0,1,p-1,p,p+1,2p-1,2p,2p+1} else 0..3p+2 (p = page size the code requests), states = base state of the ten + overrides at page-boundary positions, optional decoy ring. Oracle: Wipeout terminates; afterwards no version of any key of the ring is ENABLED/DISABLED; every initially ENABLED/DISABLED version got exactly one destroy call, every other version and the decoy none."+lifecycleRuleTail)
+	checks(ev.Scale(300, 5000))
+	rapid.Check(t, func(t *rapid.T) {
+		sc := genWipeout(t, false)
+		res := runScenario(sc)
+		if !judgeWipeout(t, sc, res) {
+			return
+		}
+		live0 := 0
+		for _, k := range sc.Keys {
+			for _, s := range k.States {
+				if live(vstate(s)) {
+					live0++
+				}
+			}
+		}
+		switch {
+		case live0 == 0:
+			ev.Class(name, "destroyable:none")
+		case live0 < 100:
+			ev.Class(name, "destroyable:1..99")
+		default:
+			ev.Class(name, "destroyable:>=100")
+		}
+		recordLifecycle(name, sc, res, "wipeout")
+	})
+}
+
+func TestBootstrap(t *testing.T) {
+	const name = "lifecycle/bootstrap"
+	ev.Rule(name, "CreateNewRootKey / CreateFirstSigningKey on a fresh key (1 in 6; ring present or not, keep_going or not) or an existing key with versions emphasising the page boundaries, base state mostly not usable + ENABLED/PENDING_GENERATION overrides at first/last/page-boundary positions; versions created by the service start ENABLED or PENDING_GENERATION; a pending version resolves at its first poll to ENABLED or any other state, or never (the model then ends the caller's context inside the poll, so no real sleep). Oracle: terminates; if the key has an ENABLED version one of them is returned and nothing is created; else if it has PENDING_GENERATION versions one of them is polled, nothing is created, and it is returned iff it became ENABLED; else exactly one version is created and returned iff ENABLED; a returned name is always an ENABLED version of the target key. Zero-version keys and AlreadyExists without keep_going are not judged beyond that."+lifecycleRuleTail)
+	checks(ev.Scale(400, 5000))
+	rapid.Check(t, func(t *rapid.T) {
+		sc := genBootstrap(t, false)
+		res := runScenario(sc)
+		ok, cls := judgeBootstrap(t, sc, res)
+		if !ok {
+			return
+		}
+		recordLifecycle(name, sc, res, cls)
+	})
+}
+
+func TestRotation(t *testing.T) {
+	const name = "lifecycle/rotation"
+	ev.Rule(name, "CreateNewSigningKeyVersion on an existing (9 in 10) key with 0..p versions in any states; the created version starts ENABLED or PENDING_GENERATION and resolves at first poll to ENABLED / any other state / never (context ends inside the poll). Oracle: terminates within the bound; exactly one CreateCryptoKeyVersion; returns (name,nil) iff the new version is ENABLED in the service, and the name is that version's; a missing key yields an error. Non-trivial = new version not ENABLED at once. Distinct = (existing states, outcome).")
+	checks(ev.Scale(300, 3000))
+	rapid.Check(t, func(t *rapid.T) {
+		sc := genRotate(t)
+		res := runScenario(sc)
+		ok, cls := judgeRotate(t, sc, res)
+		if !ok {
+			return
+		}
+		recordLifecycle(name, sc, res, cls)
+	})
+}
+
+func TestFaults(t *testing.T) {
+	const name = "lifecycle/faults"
+	ev.Rule(name, "small scenario of every operation (wipeout, bootstrap-root, bootstrap-signing, rotate, destroy; 0..5 versions, 1 in 12 p+1; drawn paging) run once without faults to count its N service calls (KMS and IAM), then re-run on a fresh model with one service error (code drawn from Unavailable/Internal/PermissionDenied/DeadlineExceeded/ResourceExhausted/NotFound/FailedPrecondition/Aborted/plain error) at EVERY call index 0..N-1, then with a drawn multi-fault set, then with the context cancelled beforehand. Oracle: terminates within the bound; the operation returns an error (faults on CreateKeyRing are not judged); a name returned without error is an ENABLED version of the target; no version is destroyed twice or when not destroyable. Non-trivial = all. Distinct = (scenario shape, faulted call index/method).")
+	checks(ev.Scale(150, 2500))
+	rapid.Check(t, func(t *rapid.T) {
+		var sc *scenario
+		switch rapid.SampledFrom([]string{"wipeout", "wipeout", "bootstrap", "bootstrap", "rotate", "destroy"}).Draw(t, "op") {
+		case "wipeout":
+			sc = genWipeout(t, true)
+		case "bootstrap":
+			sc = genBootstrap(t, true)
+		case "rotate":
+			sc = genRotate(t)
+		default:
+			sc = genDestroy(t)
+		}
+		codeSeed := rapid.IntRange(0, len(faultCodes)-1).Draw(t, "codeSeed")
+		base := runScenario(sc)
+		if ok, _ := judge(t, sc, base); !ok {
+			return
+		}
+		n := base.m.calls
+		canon := scenarioCanon(sc)
+		one := func(fsc *scenario, label string) bool {
+			res := runScenario(fsc)
+			ok, _ := judge(t, fsc, res)
+			if !ok {
+				return false
+			}
+			cls := sc.Op + "/" + label
+			if len(res.m.injected) > 0 && label == "single" {
+				cls = sc.Op + "/" + res.m.log[res.m.injected[0]].Method
+			}
+			outc := "error-surfaced"
+			if res.err == nil {
+				outc = "success(keyring-fault-only)"
+			}
+			ev.Class(name, "outcome:"+outc)
+			ev.Case(name, true, fmt.Sprintf("%s|%s|%v|%v", canon, label, fsc.Faults, fsc.CancelBefore), cls, func() any {
+				return map[string]any{"scenario": describe(fsc), "calls_without_fault": n, "error": fmt.Sprint(res.err)}
+			})
+			return true
+		}
+		for i := 0; i < n; i++ {
+			fsc := *sc
+			fsc.Faults = []faultSpec{{At: i, Code: (codeSeed + i) % len(faultCodes)}}
+			if !one(&fsc, "single") {
+				return
+			}
+		}
+		if n >= 2 {
+			k := rapid.IntRange(2, 4).Draw(t, "nfaults")
+			fsc := *sc
+			seen := map[int]bool{}
+			for j := 0; j < k; j++ {
+				at := rapid.IntRange(0, n-1).Draw(t, "faultAt")
+				if !seen[at] {
+					seen[at] = true
+					fsc.Faults = append(fsc.Faults, faultSpec{At: at, Code: (codeSeed + j) % len(faultCodes)})
+				}
+			}
+			sort.Slice(fsc.Faults, func(a, b int) bool { return fsc.Faults[a].At < fsc.Faults[b].At })
+			if !one(&fsc, "multi") {
+				return
+			}
+		}
+		csc := *sc
+		csc.CancelBefore = true
+		one(&csc, "cancelled-before")
+	})
+}
+
+// Thorough tier only: pending versions that need 1..2 real polls (the code sleeps a real 5 s per
+// poll). Enumerated grid, run in parallel, partitioned over shards.
+func TestPollingRealWait(t *testing.T) {
+	const name = "lifecycle/real-wait"
+	if ev.Tier() != "thorough" {
+		t.Skip("real 5 s poll sleeps: thorough tier only")
+	}
+	ev.Rule(name, "grid {rotate, bootstrap-signing with a pre-existing pending version, bootstrap-root on a fresh key} x polls answered PENDING_GENERATION {1,2} x final {ENABLED, GENERATION_FAILED, DISABLED, never (context ends)}; the code's real 5 s sleeps happen; same oracles as the generated cases; all non-trivial")
+	shard, _ := strconv.Atoi(os.Getenv("VERIF_SHARD"))
+	nshards, _ := strconv.Atoi(os.Getenv("VERIF_NSHARDS"))
+	if nshards < 1 {
+		nshards = 1
+	}
+	pageSizes()
+	i := 0
+	for _, op := range []string{"rotate", "bootstrap-signing", "bootstrap-root"} {
+		for _, polls := range []int{1, 2} {
+			for _, final := range []vstate{stEnabled, kmspb.CryptoKeyVersion_GENERATION_FAILED, kmspb.CryptoKeyVersion_DISABLED, stPending} {
+				i++
+				if i%nshards != shard%nshards {
+					continue
+				}
+				oc := outcome{Initial: int32(stPending), Resolve: int32(final), Polls: polls}
+				sc := &scenario{Op: op, RingExists: true, KeepGoing: true, New: oc, Pending: oc}
+				switch op {
+				case "rotate":
+					sc.Target = "sk"
+					sc.Keys = []keySpec{{ID: "sk", States: []int32{int32(stEnabled)}}}
+				case "bootstrap-signing":
+					sc.Target = "tk"
+					sc.Keys = []keySpec{{ID: "tk", States: []int32{int32(kmspb.CryptoKeyVersion_DESTROYED), int32(stPending)}}}
+				default:
+					sc.Target = "tk"
+					sc.RingExists = false
+				}
+				label := fmt.Sprintf("%s/polls=%d/final=%v", op, polls, final)
+				t.Run(label, func(t *testing.T) {
+					t.Parallel()
+					res := runScenario(sc)
+					if ok, cls := judge(t, sc, res); ok {
+						ev.Case(name, true, label, op, func() any { return map[string]any{"case": label, "expectation": cls, "error": fmt.Sprint(res.err)} })
+					}
+				})
+			}
+		}
+	}
+}
+
+// ---------------------------------------------------------------------------------------------
+// Signing.
+
+var castagnoli = crc32.MakeTable(crc32.Castagnoli)
+
+func crc32c(b []byte) int64 { return int64(crc32.Checksum(b, castagnoli)) }
+
+type signSpec struct {
+	Digest []byte `json:"digest"`
+	Name   string `json:"name"`
+	Opts   string `json:"opts"`
+	Resp   string `json:"resp"`
+	SigLen int    `json:"sig_len"`
+	Bit    int    `json:"bit"`
+}
+
+type customOpts struct{}
+
+func (customOpts) HashFunc() crypto.Hash { return crypto.SHA256 }
+
+// optsFor returns the signer options of a kind, whether a signature may be returned for them, and
+// whether an honest response must be returned for them (the documented options).
+func optsFor(kind string) (opts crypto.SignerOpts, allowed, documented bool) {
+	switch kind {
+	case "pss-sha256-equalshash":
+		return &rsa.PSSOptions{SaltLength: rsa.PSSSaltLengthEqualsHash, Hash: crypto.SHA256}, true, true
+	case "pss-sha256-salt32": // the same salt length spelled numerically: either answer is acceptable
+		return &rsa.PSSOptions{SaltLength: 32, Hash: crypto.SHA256}, true, false
+	case "pss-sha256-saltauto":
+		return &rsa.PSSOptions{SaltLength: rsa.PSSSaltLengthAuto, Hash: crypto.SHA256}, false, false
+	case "pss-sha256-salt20":
+		return &rsa.PSSOptions{SaltLength: 20, Hash: crypto.SHA256}, false, false
+	case "pss-sha384-equalshash":
+		return &rsa.PSSOptions{SaltLength: rsa.PSSSaltLengthEqualsHash, Hash: crypto.SHA384}, false, false
+	case "pss-sha512-equalshash":
+		return &rsa.PSSOptions{SaltLength: rsa.PSSSaltLengthEqualsHash, Hash: crypto.SHA512}, false, false
+	case "pss-sha1-equalshash":
+		return &rsa.PSSOptions{SaltLength: rsa.PSSSaltLengthEqualsHash, Hash: crypto.SHA1}, false, false
+	case "pss-nohash":
+		return &rsa.PSSOptions{SaltLength: rsa.PSSSaltLengthEqualsHash}, false, false
+	case "pkcs1v15-sha256":
+		return crypto.SHA256, false, false
+	case "custom-sha256":
+		return customOpts{}, false, false
+	case "nil":
+		return nil, false, false
+	}
+	panic("harness: opts kind " + kind)
+}
+
+var optKinds = []string{"pss-sha256-salt32", "pss-sha256-saltauto", "pss-sha256-salt20", "pss-sha384-equalshash", "pss-sha512-equalshash",
+	"pss-sha1-equalshash", "pss-nohash", "pkcs1v15-sha256", "custom-sha256", "nil"}
+
+var respKinds = []string{"honest", "honest", "sig-bitflip", "sig-bitflip", "sig-bitflip", "sig-truncated", "sig-extended", "crc-absent", "crc-plus-one", "crc-minus-one",
+	"crc-bitflip", "crc-of-digest", "crc-of-other-signature", "crc-of-empty", "crc-ieee", "crc-plus-2^32", "crc-minus-2^32",
+	"data-flag-cleared", "digest-flag-cleared", "both-flags-cleared", "service-error"}
+
+func fakeSignature(name string, digest []byte, n int) []byte {
+	out := make([]byte, 0, n+32)
+	for c := 0; len(out) < n; c++ {
+		h := sha256.Sum256(append([]byte(name+"\x00"+strconv.Itoa(c)+"\x00"), digest...))
+		out = append(out, h[:]...)
+	}
+	return out[:n]
+}
+
+type signModel struct {
+	kmspb.KeyManagementServiceClient
+	spec   *signSpec
+	calls  int
+	req    *kmspb.AsymmetricSignRequest
+	resp   *kmspb.AsymmetricSignResponse // as sent
+	honest []byte                        // the signature the service computed
+}
+
+func (s *signModel) AsymmetricSign(ctx context.Context, req *kmspb.AsymmetricSignRequest, _ ...grpc.CallOption) (*kmspb.AsymmetricSignResponse, error) {
+	s.calls++
+	s.req = proto.Clone(req).(*kmspb.AsymmetricSignRequest)
+	if s.spec.Resp == "service-error" {
+		return nil, status.Error(codes.Unavailable, "verif-model: injected")
+	}
+	// what an honest service does with the request checksums
+	var dataOK, digestOK bool
+	if req.GetDataCrc32C() != nil {
+		if req.GetDataCrc32C().GetValue() != crc32c(req.GetData()) {
+			return nil, status.Error(codes.InvalidArgument, "data_crc32c does not match data")
+		}
+		dataOK = true
+	}
+	digest := req.GetDigest().GetSha256()
+	if req.GetDigestCrc32C() != nil {
+		if req.GetDigestCrc32C().GetValue() != crc32c(digest) {
+			return nil, status.Error(codes.InvalidArgument, "digest_crc32c does not match digest")
+		}
+		digestOK = true
+	}
+	sig := fakeSignature(req.GetName(), digest, s.spec.SigLen)
+	s.honest = append([]byte{}, sig...)
+	crc := crc32c(sig)
+	resp := &kmspb.AsymmetricSignResponse{Name: req.GetName(), Signature: sig, SignatureCrc32C: wrapperspb.Int64(crc),
+		VerifiedDataCrc32C: dataOK, VerifiedDigestCrc32C: digestOK, ProtectionLevel: kmspb.ProtectionLevel_SOFTWARE}
+	kind := s.spec.Resp
+	if len(sig) == 0 && (kind == "sig-bitflip" || kind == "sig-truncated") {
+		kind = "crc-plus-one"
+	}
+	switch kind {
+	case "honest":
+	case "sig-bitflip":
+		bit := s.spec.Bit % (len(sig) * 8)
+		resp.Signature = append([]byte{}, sig...)
+		resp.Signature[bit/8] ^= 1 << (bit % 8)
+	case "sig-truncated":
+		resp.Signature = sig[:len(sig)-1]
+	case "sig-extended":
+		resp.Signature = append(append([]byte{}, sig...), byte(s.spec.Bit))
+	case "crc-absent":
+		resp.SignatureCrc32C = nil
+	case "crc-plus-one":
+		resp.SignatureCrc32C = wrapperspb.Int64(crc + 1)
+	case "crc-minus-one":
+		resp.SignatureCrc32C = wrapperspb.Int64(crc - 1)
+	case "crc-bitflip":
+		resp.SignatureCrc32C = wrapperspb.Int64(crc ^ int64(uint64(1)<<(s.spec.Bit%64)))
+	case "crc-of-digest":
+		resp.SignatureCrc32C = wrapperspb.Int64(crc32c(digest))
+	case "crc-of-other-signature":
+		resp.SignatureCrc32C = wrapperspb.Int64(crc32c(fakeSignature(req.GetName()+"'", digest, s.spec.SigLen)))
+	case "crc-of-empty":
+		resp.SignatureCrc32C = wrapperspb.Int64(0)
+	case "crc-ieee":
+		resp.SignatureCrc32C = wrapperspb.Int64(int64(crc32.ChecksumIEEE(sig)))
+	case "crc-plus-2^32":
+		resp.SignatureCrc32C = wrapperspb.Int64(crc + 1<<32)
+	case "crc-minus-2^32":
+		resp.SignatureCrc32C = wrapperspb.Int64(crc - 1<<32)
+	case "data-flag-cleared":
+		resp.VerifiedDataCrc32C = false
+	case "digest-flag-cleared":
+		resp.VerifiedDigestCrc32C = false
+	case "both-flags-cleared":
+		resp.VerifiedDataCrc32C, resp.VerifiedDigestCrc32C = false, false
+	default:
+		panic("harness: response kind " + kind)
+	}
+	s.resp = proto.Clone(resp).(*kmspb.AsymmetricSignResponse)
+	return resp, nil
+}
+
+// runSign calls Signer.Sign and judges the outcome. Returns (passed, accepted).
+func runSign(t ev.TB, spec *signSpec) (bool, bool) {
+	sm := &signModel{spec: spec}
+	signer := &gcpkms.Signer{Manager: &gcpkms.Manager{Project: "p", Location: "l", KeyRingID: "r", KeyClient: sm}}
+	opts, allowed, documented := optsFor(spec.Opts)
+	var got []byte
+	var err error
+	var pan any
+	func() {
+		defer func() {
+			if r := recover(); r != nil {
+				pan = fmt.Sprintf("%v\n%s", r, debug.Stack())
+			}
+		}()
+		got, err = signer.Sign(context.Background(), spec.Name, styp.Digest{SHA256: append([]byte{}, spec.Digest...)}, opts)
+	}()
+	what := fmt.Sprintf("opts=%s response=%s sig_len=%d bit=%d digest=%x", spec.Opts, spec.Resp, spec.SigLen, spec.Bit, spec.Digest)
+	if pan != nil {
+		if strings.Contains(fmt.Sprint(pan), "harness:") {
+			t.Fatalf("HARNESS: %v", pan)
+			return false, false
+		}
+		ev.Violation(t, "C20/sign-panic", "%s: Sign panicked: %v", what, pan)
+		return false, false
+	}
+	if err == nil {
+		switch {
+		case !allowed:
+			ev.Violation(t, "C20/sign-wrong-options-accepted", "%s: a signature was returned for options other than RSA-PSS/SHA-256/salt=hash length", what)
+			return false, true
+		case sm.resp == nil:
+			ev.Violation(t, "C20/sign-service-error-ignored", "%s: a signature (%d bytes) was returned although the service returned no response (calls=%d)", what, len(got), sm.calls)
+			return false, true
+		case crc32c(sm.resp.GetSignature()) != sm.resp.GetSignatureCrc32C().GetValue():
+			ev.Violation(t, "C20/sign-checksum-mismatch-accepted", "%s: returned a signature whose CRC32C %d differs from the response's signature_crc32c %v", what, crc32c(sm.resp.GetSignature()), sm.resp.GetSignatureCrc32C())
+			return false, true
+		case !sm.resp.GetVerifiedDataCrc32C() || !sm.resp.GetVerifiedDigestCrc32C():
+			ev.Violation(t, "C20/sign-unverified-request-accepted", "%s: returned a signature although the service did not confirm the request checksums (verified_data=%v verified_digest=%v; request data_crc32c=%v digest_crc32c=%v)",
+				what, sm.resp.GetVerifiedDataCrc32C(), sm.resp.GetVerifiedDigestCrc32C(), sm.req.GetDataCrc32C(), sm.req.GetDigestCrc32C())
+			return false, true
+		case !bytes.Equal(got, sm.resp.GetSignature()):
+			ev.Violation(t, "C20/sign-signature-modified", "%s: returned bytes differ from the response's signature", what)
+			return false, true
+		}
+		if sm.resp.GetSignatureCrc32C() == nil {
+			ev.Note("sign: a response without signature_crc32c whose signature has CRC32C 0 (e.g. the empty signature) is accepted; the absent wrapper reads as 0 (not judged, see assumptions)")
+		}
+		return true, true
+	}
+	if documented && spec.Resp == "honest" {
+		ev.Violation(t, "C20/sign-honest-rejected", "%s: honest response for the documented options was rejected: %v (request as received: %v)", what, err, sm.req)
+		return false, false
+	}
+	return true, false
+}
+
+func lenBucket(n int) string {
+	switch {
+	case n == 0:
+		return "0"
+	case n < 512:
+		return "1..511"
+	case n == 512:
+		return "512"
+	}
+	return ">512"
+}
+
+func TestSignResponses(t *testing.T) {
+	const name = "sign/responses"
+	ev.Rule(name, "Signer.Sign with a drawn digest (32 bytes, sometimes 0/20/48/64), key version name, signer options (1 in 2 the documented &rsa.PSSOptions{SaltLength: PSSSaltLengthEqualsHash, Hash: SHA256}; else salt 32/auto/20, SHA-384/512/1/none, PKCS#1 v1.5 SHA-256, a non-PSS custom type, nil) against a model service that validates the request checksums like the real one and answers honestly or with exactly one corruption: one signature bit flipped, signature truncated/extended, signature_crc32c absent / +-1 / one bit flipped / of the digest / of another signature / of the empty string / IEEE polynomial / +-2^32, verified_data_crc32c or verified_digest_crc32c or both cleared, or a service error. Oracle: (sig,nil) => options were PSS/SHA-256/salt=hash length, a response exists, CRC32C(response signature) == response signature_crc32c, both verified flags set, sig == response signature bytes; honest response + documented options => returned. Non-trivial = corrupted response or non-documented options. Distinct = (options, response kind, signature length, bit).")
+	checks(ev.Scale(3000, 5000))
+	rapid.Check(t, func(t *rapid.T) {
+		spec := &signSpec{}
+		dl := rapid.SampledFrom([]int{32, 32, 32, 32, 32, 0, 20, 48, 64}).Draw(t, "digestLen")
+		spec.Digest = rapid.SliceOfN(rapid.Byte(), dl, dl).Draw(t, "digest")
+		spec.Name = ringName + "/cryptoKeys/" + rapid.SampledFrom([]string{"gce-uefi-signing-key", "gce-cc-tcb-root", "k"}).Draw(t, "key") +
+			"/cryptoKeyVersions/" + strconv.Itoa(rapid.IntRange(1, 300).Draw(t, "version"))
+		spec.Opts = "pss-sha256-equalshash"
+		if rapid.Bool().Draw(t, "otherOpts") {
+			spec.Opts = rapid.SampledFrom(optKinds).Draw(t, "opts")
+		}
+		spec.Resp = rapid.SampledFrom(respKinds).Draw(t, "response")
+		spec.SigLen = rapid.SampledFrom([]int{512, 512, 512, 512, 256, 384, 1, 0, 513, 1024}).Draw(t, "sigLen")
+		spec.Bit = rapid.IntRange(0, 8*1024-1).Draw(t, "bit")
+		ok, accepted := runSign(t, spec)
+		if !ok {
+			return
+		}
+		cls := spec.Resp
+		if spec.Opts != "pss-sha256-equalshash" {
+			cls = "opts:" + spec.Opts
+		}
+		ev.Class(name, map[bool]string{true: "outcome:signature-returned", false: "outcome:error"}[accepted])
+		ev.Case(name, spec.Resp != "honest" || spec.Opts != "pss-sha256-equalshash",
+			fmt.Sprintf("%s|%s|%d|%d|%d", spec.Opts, spec.Resp, spec.SigLen, spec.Bit, dl), cls, func() any {
+				return map[string]any{"opts": spec.Opts, "response": spec.Resp, "sig_len": lenBucket(spec.SigLen), "bit": spec.Bit, "accepted": accepted}
+			})
+	})
+}
+
+// Every single-bit corruption of one fixed 4096-bit signature, of the 64-bit checksum value, and
+// every combination of cleared flags, under the documented options.
+func TestSignEverySingleBit(t *testing.T) {
+	const name = "sign/single-bit-exhaustive"
+	ev.Rule(name, "fixed digest and 512-byte signature, documented options; enumerate: each of the 4096 signature bits flipped, each of the 64 bits of the signature_crc32c value flipped, each non-empty subset of the two verified_* flags cleared, checksum absent, and the honest response; oracle as sign/responses plus: every corrupted response is rejected, the honest one returned; non-trivial = corrupted; exhaustive")
+	digest := sha256.Sum256([]byte("c20"))
+	base := signSpec{Digest: digest[:], Name: ringName + "/cryptoKeys/gce-uefi-signing-key/cryptoKeyVersions/7", Opts: "pss-sha256-equalshash", SigLen: 512}
+	try := func(resp string, bit int) {
+		spec := base
+		spec.Resp, spec.Bit = resp, bit
+		ok, accepted := runSign(t, &spec)
+		if !ok {
+			return
+		}
+		if accepted != (resp == "honest") {
+			ev.Violation(t, "C20/sign-checksum-mismatch-accepted", "response %s bit %d: accepted=%v", resp, bit, accepted)
+			return
+		}
+		ev.Case(name, resp != "honest", fmt.Sprintf("%s|%d", resp, bit), resp, func() any { return map[string]any{"response": resp, "bit": bit, "accepted": accepted} })
+	}
+	try("honest", 0)
+	for b := 0; b < 512*8; b++ {
+		try("sig-bitflip", b)
+	}
+	for b := 0; b < 64; b++ {
+		try("crc-bitflip", b)
+	}
+	for _, k := range []string{"data-flag-cleared", "digest-flag-cleared", "both-flags-cleared", "crc-absent"} {
+		try(k, 0)
+	}
+	ev.Exhaustive(name)
 }
